@@ -8,3 +8,7 @@ import G3D.Props.C03
 #print axioms G3D.Props.C03.inter_polygon_polygon_total
 #print axioms G3D.Props.C03.inter_polygon_polyhedron_exact
 #print axioms G3D.Props.C03.inter_polygon_polyhedron_total
+#print axioms G3D.Props.C03.inter_polyhedron_polyhedron_exact_of_ok
+#print axioms G3D.Props.C03.inter_polyhedron_polyhedron_no_bug
+#print axioms G3D.Props.C03.inter_polyhedron_polyhedron_none_iff
+#print axioms G3D.Props.C03.inter_polyhedron_polyhedron_total_or_ctor
